@@ -23,7 +23,7 @@ def add_dead(rng, d):
                 ch["sub"] += shift
     new = []
     for k in range(ndead):
-        ch = [{"empty": True} for _ in range(rng.randint(0, 2))]
+        ch = [{"empty": True, "ekind": rng.choice([0, 0, 1, 2])} for _ in range(rng.randint(0, 2))]
         if k > 0 and rng.random() < 0.5:
             ch.append({"sub": rng.randrange(k)})
         new.append({"children": ch, "conns": [], "expo": []})
@@ -34,7 +34,7 @@ def add_dead(rng, d):
         nins = rng.choice([0, 1, 1, 2, 3])
         for _ in range(nins):
             at = rng.randint(0, len(df["children"]))
-            ch = {"empty": True} if (ndead == 0 or rng.random() < 0.5) else {"sub": rng.randrange(ndead)}
+            ch = {"empty": True, "ekind": rng.choice([0, 0, 1, 2])} if (ndead == 0 or rng.random() < 0.5) else {"sub": rng.randrange(ndead)}
             df["children"].insert(at, ch)
             for c in df["conns"]:
                 for e in c:
